@@ -34,6 +34,13 @@ def tdm_script(rng, with_params=False, with_loop=False):
         shape = "[1, %d]" % n if rng.random() < 0.5 else ""
         lines.append("%s array %s%s =\n    %s" % (ty, nm, shape, ", ".join(elem(rng, ty) for _ in range(n))))
     others = []
+    # ordinary arrays whose names merely START like a p-array name (passed by value), and p-named scalars
+    for nm in rng.sample(["p1_scaled", "p2b", "p0x", "p", "pp0", "p_1", "P0", "q_p0", "p10a"], rng.randint(0, 2)):
+        if nm in names:
+            continue
+        ty = rng.choice(["float", "int", "complex"])
+        lines.append("%s array %s =\n    %s" % (ty, nm, ", ".join(elem(rng, ty) for _ in range(rng.randint(1, 3)))))
+        others.append(nm)
     if rng.random() < 0.6:
         lines.append("float alpha = %s" % elem(rng, "float"))
         others.append("alpha")
